@@ -45,6 +45,16 @@ CLAIMS = {
                      "with arbitrary byte contents and slice lengths, or matches one of three reviewed residuals (relational length equalities in verify_batch; the algebraic expect() in nonspec_map_to_curve, whose structural side condition - "
                      "to_edwards yields None only via the u == -1 test or decompress() - is checked on every run). Release-mode MIR; checked-build arithmetic panics are C11's",
                 note="allocation failure, foreign crates' internals and user trait impls are outside; trusted: exporter, PANIC inventory, ABSINT interpreter + models", ref="3.5, 4 C15"),
+    "C01": dict(cat="other", tech="monomial (exponent) abstract domain over the addition chains + literal limb-vector arithmetic against p + interval post-conditions of the byte codecs (EXPCHAIN, ABSINT)",
+                text="Decides necessary conditions only, NOT exactness of the limb kernels (value-level; stated as not decided): invert = x^(p-2), pow_p58 = x^((p-5)/8), pow22501 = (x^(2^250-1), x^11), sqrt_ratio_i forms the candidate root "
+                     "u^((p+3)/8) v^(3+7(p-5)/8) and the check value v r^2 (monomial domain over the MIR of the chains, kernels abstracted by their algebraic meaning); every literal limb vector added before a reduce (sub, sub_assign, negate; u64 and u32) is a multiple of p; "
+                     "from_bytes yields limbs within nominal width (bit 255 dropped, value < 2^255) and as_bytes clears the top bit for every admissible representation (intervals). Absence of wrap-around in every field kernel is C11's",
+                note="partial; vector (AVX2/IFMA) field and fiat primitives not analysed; kernels' products are trusted here", ref="10.6"),
+    "C02": dict(cat="other", tech="interval analysis with a magnitude contract at every montgomery_reduce call + monomial domain over the inversion chain + constructor / pack() inventory (ABSINT, EXPCHAIN, PATH)",
+                text="Decides necessary conditions only, NOT exactness of mul_internal / montgomery_reduce / add / sub (value-level; stated as not decided): every montgomery_reduce call reachable from the public Scalar API receives a value < l*R "
+                     "(so its single conditional subtraction is canonical), u64 and u32; the inversion chain raises to l-2; every raw construction Scalar{bytes} in the three crates is of a reviewed kind and every pack() receives the output of a reducing kernel; "
+                     "from_canonical_bytes' flag depends on is_canonical = ct_eq(self, reduce(self)); integer conversions write the little-endian bytes at offset 0 of a zeroed array",
+                note="partial; relies on A1/A2 and on the constants decided by C12", ref="10.6"),
     "C12": dict(cat="proof", tech="exhaustive comparison of compiler-evaluated constants with an independent big-integer oracle (static: no repository code run)",
                 text="Every const/static of the three crates (field, scalar, point, table, vector-lane and ff constants), as evaluated by rustc and decoded by type layout, "
                      "equals its mathematical definition; exhaustive over all 2x(256+64) serial and 64(+64) vector table entries and every limb representation; quick = simd(u64+AVX2)+u32, thorough = all 8 configurations",
@@ -68,8 +78,6 @@ CLAIMS = {
 }
 
 NA_REASON = {
-    "C01": "value-level: exactness of field arithmetic mod p over all 2^510 input pairs is a statement about numerical results; no sound static argument in reach decides it (interval analysis bounds limbs - that part is C11's - but not values mod p). See DESIGN.md",
-    "C02": "value-level: exact arithmetic mod l for all inputs (Montgomery reduction, Karatsuba) quantifies over runtime values; intervals prove absence of overflow (C11) but not equality mod l. See DESIGN.md",
     "C04": "value-level: equality of each algorithm's output with sum s_i*P_i is a group-arithmetic identity over all inputs; only digit-range side conditions are statically decidable and they are decided inside C11. See DESIGN.md",
     "C05": "cross-configuration byte equality of outputs for all inputs is a relational value-level property; static agreement of sibling implementations cannot establish equality of numerical results. See DESIGN.md",
 }
@@ -88,7 +96,8 @@ m = {
         {"name": "mirfacts", "path": "mirfacts/", "serves_properties": sorted(CLAIMS), "kind_free_text": "rustc_private driver: exports resolved MIR, ADTs, impls and const-evaluated constants per crate and configuration"},
         {"name": "CONSTS", "path": "lib/eng_consts.py", "serves_properties": ["C12", "C17"], "kind_free_text": "constants vs big-integer oracle"},
         {"name": "TAINT/ZEROIZE", "path": "lib/eng_taint.py props/C14.py", "serves_properties": ["C10", "C14"], "kind_free_text": "interprocedural taint with transfer summaries and points-to; drop/zeroize field coverage; heap typestate"},
-        {"name": "ABSINT", "path": "lib/absint.py lib/absint_models.py lib/eng_absint.py", "serves_properties": ["C11", "C15"], "kind_free_text": "interval abstract interpreter over checked-mode MIR with inductive type invariants"},
+        {"name": "ABSINT", "path": "lib/absint.py lib/absint_models.py lib/eng_absint.py", "serves_properties": ["C01", "C02", "C11", "C15"], "kind_free_text": "interval abstract interpreter over checked-mode MIR with inductive type invariants"},
+        {"name": "EXPCHAIN", "path": "lib/eng_expchain.py", "serves_properties": ["C01", "C02"], "kind_free_text": "monomial abstract domain (exponent vectors) over the addition chains, on the generic MIR interpreter"},
         {"name": "PATH", "path": "lib/mirlib.py lib/pathlib2.py lib/ex.py", "serves_properties": [p for p in ["C03", "C06", "C07", "C08", "C09", "C13", "C16", "C17"] if p in CLAIMS],
          "kind_free_text": "dominance (edge-removal reachability), value-flow slices, expression trees, ORDER, guard implication"},
     ],
